@@ -13,9 +13,9 @@ from vf.strategies import FA, mk_affine
 
 RULE = (
     "Same-CRS GeoBox pairs (sides 1..40): integer shift + residue in {0, +-0.2ttol, +-0.9ttol, +-1.1ttol, +-0.3, 0.5}, "
-    "mirror in x/y/both, scale in {1,2,3,4,1/k, k(1+-0.5stol), k(1+-2stol), fractional}, rotation/shear as negatives, "
+    "mirror in x/y/both, scale in {1,2,3,4,1/k, k(1+-0.5stol), k(1+-2stol), fractional, independent integer scales per axis}, rotation/shear as negatives, "
     "every placement class (contained/partial/touching/disjoint/covering), ttol/stol defaults and overrides, dtypes "
-    "u1,i1,bool,u2,i2,u4,i4,f4,f8. Oracle: when paste_ok and read_shrink==1 the pasted image (fill + flipped copy of "
+    "u1,i1,bool (destination nodata omitted / 0 / False),u2,i2,u4,i4,f4,f8. Oracle: when paste_ok and read_shrink==1 the pasted image (fill + flipped copy of "
     "roi_src into roi_dst) must equal GDAL's nearest-neighbour warp of the whole source; for read_shrink=k>1 roi_src "
     "must be roi_dst scaled by k and contain every block the exact map prescribes; whenever paste_ok is reported the "
     "exact rational dst->src matrix must be an integer scale + whole-pixel shift within the tolerances. Non-trivial: "
@@ -44,7 +44,7 @@ def s_case(draw):
     Hd, Wd = draw(st.integers(1, 40)), draw(st.integers(1, 40))
     ttol = draw(st.sampled_from([0.05, 0.05, 0.01, 0.2]))
     stol = draw(st.sampled_from([1e-3, 1e-3, 1e-5, 1e-2]))
-    klass = draw(st.sampled_from(["shift_int", "shift_int", "shift_sub", "shift_sub", "scale_int", "scale_int", "scale_near", "scale_frac", "rot"]))
+    klass = draw(st.sampled_from(["shift_int", "shift_int", "shift_sub", "shift_sub", "scale_int", "scale_int", "scale_near", "scale_frac", "scale_aniso", "rot"]))
     if klass == "rot":
         ang = draw(st.sampled_from([90.0, 1.0, 45.0, 0.01, 180.0]))
         c, s_ = math.cos(math.radians(ang)), math.sin(math.radians(ang))
@@ -52,8 +52,11 @@ def s_case(draw):
         Tm = [c, -s_ + shear, float(draw(st.integers(-5, 20))), s_, c, float(draw(st.integers(-5, 20)))]
         places, mirrors = ["rot", "rot"], [False, False]
     else:
-        sx, txx, px, mx = draw(s_axis_map(Ws, Wd, klass, ttol, stol))
-        if klass in ("scale_int", "scale_near"):
+        sx, txx, px, mx = draw(s_axis_map(Ws, Wd, "scale_int" if klass == "scale_aniso" else klass, ttol, stol))
+        if klass == "scale_aniso":
+            # integer (or 1/integer) scale per axis, chosen independently: (1,2), (2,4), (3,1/2) ... must never paste
+            sy, tyy, py, my = draw(s_axis_map(Hs, Hd, draw(st.sampled_from(["scale_int", "scale_int", "shift_int"])), ttol, stol))
+        elif klass in ("scale_int", "scale_near"):
             _, ty0, py, my = draw(s_axis_map(Hs, Hd, "shift_int", ttol, stol))
             s_abs = abs(sx)
             L = ty0 if not my else ty0 - Hd
@@ -71,7 +74,9 @@ def s_case(draw):
         Tm = [sx, 0.0, txx, 0.0, sy, tyy]
         places, mirrors = [px, py], [mx, my]
     return {"src": {"shape": [Hs, Ws], "affine": src_aff}, "dshape": [Hd, Wd], "T": Tm, "ttol": ttol, "stol": stol, "klass": klass,
-            "places": places, "mirrors": mirrors, "dtype": draw(st.sampled_from(DTYPES))}
+            "places": places, "mirrors": mirrors, "dtype": draw(st.sampled_from(DTYPES)),
+            # destination nodata handed to the warp for bool rasters (None: not given; 0 / False: given explicitly)
+            "bool_nodata": draw(st.sampled_from(["none", "zero", "false"]))}
 
 
 def _mk(case):
@@ -185,8 +190,15 @@ def o_paste(case, T):
         return
     B_img = np.full((Hd, Wd), fill, dtype=dtype)
     if dtype == "bool":
-        # bool takes a uint8 detour in which "no data" cannot be told from False: compare with fill False
-        B_img = rio_reproject(src_px, B_img, src, dst, "nearest")
+        # bool takes a uint8 detour in which "no data" cannot be told from False: compare with fill False, with the
+        # destination nodata left out or given explicitly as 0 / False (the detour has to undo GDAL's nudging of valid
+        # zeros off the nodata value)
+        bn = case.get("bool_nodata", "none")
+        if bn == "none":
+            B_img = rio_reproject(src_px, B_img, src, dst, "nearest")
+        else:
+            B_img = rio_reproject(src_px, B_img, src, dst, "nearest", dst_nodata=(0 if bn == "zero" else False))
+            T.cls("bool_explicit_nodata")
     else:
         B_img = rio_reproject(src_px, B_img, src, dst, "nearest", dst_nodata=(None if isf else 0))
     # ambiguity mask: exact source coordinate of the destination centre within 1e-6 px of a source pixel edge
@@ -225,4 +237,4 @@ def o_paste(case, T):
 
 
 def build(chk: Check) -> None:
-    chk.sub("paste", o_paste, strategy=s_case(), n={"quick": 5000, "thorough": 250000}, shrink=True)
+    chk.sub("paste", o_paste, strategy=s_case(), n={"quick": 12000, "thorough": 250000}, shrink=True)
